@@ -258,7 +258,17 @@ def _touches(dst, regs):
 @st.composite
 def body(draw, voc, exclude=(), n=(0, 2)):
     k = draw(st.integers(*n))
-    return [draw(assignblk(voc, exclude)) for _ in range(k)]
+    out = [draw(assignblk(voc, exclude)) for _ in range(k)]
+    if voc.mem and k and draw(st.integers(0, 7)) == 0:
+        # load / overwrite / use: r = cell ; cell = x ; r2 = f(r)   (the old content of the cell must survive in r)
+        regs = [v for v in voc.data if v not in exclude]
+        if len(regs) >= 2:
+            r, r2 = draw(st.permutations(regs))[:2]
+            cell = draw(mem_cell(voc, 32))
+            if r not in expr_ids(cell.ptr):
+                out += [[(r, cell)], [(cell, draw(src_expr(voc, 32, 1, mem=False)))],
+                        [(r2, _m().ExprOp('+', r, draw(atom(voc, 32, mem=False))))]]
+    return out
 
 
 @st.composite
@@ -912,3 +922,117 @@ def shrink_graph(graph, pred, budget=400):
                 progress = True
                 break
     return cur
+
+
+# ----------------------------------------------------------------------------------------------
+# differential execution of two graphs
+
+STATE_REGS = [("EAX", 32), ("EBX", 32), ("ECX", 32), ("EDX", 32), ("ESI", 32), ("EDI", 32), ("EBP", 32), ("ESP", 32),
+              ("zf", 1), ("cf", 1), ("BL", 8), ("DX", 16)]
+
+
+def make_states(n=8, init_suffix=None):
+    """n initial states: hash-initialised registers and memory (key = index); from the sixth on the 32-bit data
+    registers and counters hold values 0..3 (equalities / zero tests between registers become true)."""
+    out = []
+    for k in range(n):
+        regs = {}
+        if k >= 5:
+            s0 = init_state(k)
+            for j, (nm, sz) in enumerate(STATE_REGS[:7]):
+                regs[(nm, sz)] = (s0.reg(nm, sz) >> (3 * j)) & 3
+        out.append(init_state(k, regs=regs, init_suffix=init_suffix, names=STATE_REGS if init_suffix else ()))
+    return out
+
+
+def final_reg(run, state, name, size, base_map):
+    """value of register (name, size) at the exit, read through the variable standing for it: the most recently
+    assigned identifier whose base (base_map(name, size) -> (name, size)) is the register; the register itself
+    when none was assigned"""
+    best, bestn = (name, size), 0
+    for (n, sz), seq in run.last_def.items():
+        if sz != size:
+            continue
+        if base_map(n, sz) == (name, size) and seq > bestn:
+            best, bestn = (n, sz), seq
+    return state.reg(*best), best[0]
+
+
+def fmt_ev(e):
+    if e is None:
+        return "none"
+    return "(" + ", ".join(hex(x) if isinstance(x, int) else str(x) for x in e) + ")"
+
+
+def compare_runs(orig_cfg, new_cfg, head, states=None, mode="final", regs=(), out_regs=(), base_map=None,
+                 same_path=False, stats=None, word="new", new_head=None):
+    """Run both graphs from `head` on every state.  -> None | (bucket suffix, detail)
+    mode "final": the bytes written by either run hold the same values at the exit;
+    mode "sequence": same ordered events (memory writes that change memory, call_* operator applications).
+    regs: [(name, size)] compared by name at the exit; out_regs: [(name, size)] read in the new graph through
+    final_reg(base_map); same_path: same sequence of executed blocks.  The exit destination is always compared.
+    States on which the original graph is undefined (division by zero), does not exit or runs out of budget are
+    dropped (counted in stats)."""
+    from vlib import irinterp
+    if states is None:
+        states = make_states()
+    for k, st0 in enumerate(states):
+        s1, s2 = st0.copy(), st0.copy()
+        try:
+            r1 = run_logged(orig_cfg, head, s1)
+        except (irinterp.Undefined, irinterp.DomainError):
+            if stats is not None:
+                stats["state-dropped:undefined-original"] += 1
+            continue
+        if r1.reason != "exit":
+            if stats is not None:
+                stats["state-dropped:" + r1.reason] += 1
+            continue
+        s2.locs = dict(s1.locs)
+        try:
+            r2 = run_logged(new_cfg, new_head or head, s2)
+        except irinterp.Undefined:
+            return ("undefined-operation", "state %d: the %s graph divides by zero where the original does not"
+                    % (k, word))
+        except irinterp.DomainError as e:
+            return ("invalid-ir", "state %d: the %s graph is not executable: %s" % (k, word, e))
+        if stats is not None:
+            stats["runs"] += 1
+            stats["run-blocks"] += len(r1.path)
+        paths = "(path %s vs %s)" % ([str(x) for x in r1.path], [str(x) for x in r2.path])
+        if r2.reason != "exit":
+            return ("no-exit", "state %d: original exits to 0x%x after %d blocks, %s graph: %s after %d blocks"
+                    % (k, r1.dst, len(r1.path), word, r2.reason, len(r2.path)))
+        if mode == "final":
+            for cell in sorted(set(r1.final_mem) | set(r2.final_mem)):
+                b1 = r1.final_mem[cell] if cell in r1.final_mem else s1.read_mem(cell[0], cell[1], 1)
+                b2 = r2.final_mem[cell] if cell in r2.final_mem else s2.read_mem(cell[0], cell[1], 1)
+                if b1 != b2:
+                    return ("memory", "state %d: byte at 0x%x is 0x%02x at the exit of the original, 0x%02x in the "
+                            "%s graph %s" % (k, cell[1], b1, b2, word, paths))
+        elif r1.effective != r2.effective:
+            n = 0
+            while n < min(len(r1.effective), len(r2.effective)) and r1.effective[n] == r2.effective[n]:
+                n += 1
+            e1 = r1.effective[n] if n < len(r1.effective) else None
+            e2 = r2.effective[n] if n < len(r2.effective) else None
+            kind = "calls" if "call" in (e1 or e2)[0] else "memory-writes"
+            return (kind, "state %d: event %d differs: original %s, %s %s %s"
+                    % (k, n, fmt_ev(e1), word, fmt_ev(e2), paths))
+        if r1.dst != r2.dst:
+            return ("exit", "state %d: original exits to 0x%x, %s graph to 0x%x %s" % (k, r1.dst, word, r2.dst, paths))
+        if same_path and r1.path != r2.path:
+            return ("path", "state %d: blocks executed differ %s" % (k, paths))
+        for name, size in regs:
+            v1, v2 = s1.reg(name, size), s2.reg(name, size)
+            if v1 != v2:
+                return ("register:%s" % name, "state %d: %s = 0x%x at the exit of the original, 0x%x in the %s graph %s"
+                        % (k, name, v1, v2, word, paths))
+        for name, size in out_regs:
+            v1 = s1.reg(name, size)
+            v2, through = final_reg(r2, s2, name, size, base_map)
+            if v1 != v2:
+                return ("out-register:%s" % name,
+                        "state %d: %s = 0x%x at the exit of the original, 0x%x in the %s graph (read through %s) %s"
+                        % (k, name, v1, v2, word, through, paths))
+    return None
